@@ -1,0 +1,19 @@
+//go:build verif
+
+package etcd
+
+import (
+	"io"
+
+	"github.com/go-kit/log"
+
+	"github.com/grafana/dskit/kv/codec"
+)
+
+// VerifNewInMemoryClient is NewInMemoryClient with an explicit retry budget (cfg.MaxRetries).
+// Add-only verification hook (property C07).
+func VerifNewInMemoryClient(codec codec.Codec, logger log.Logger, maxRetries int) (*Client, io.Closer) {
+	c, closer := NewInMemoryClient(codec, logger)
+	c.cfg.MaxRetries = maxRetries
+	return c, closer
+}
